@@ -127,6 +127,31 @@ def check(ctx):
     fw.run_suite(ctx, exe, "S-sec/truncation", truncation_lines(rnd), "security classification")
     fw.run_suite(ctx, exe, "S-sec/multi", multi_lines(rnd, 3000 if ctx.tier == "quick" else 50000), "security classification")
     fw.run_suite(ctx, exe, "S-sec/counts", count_lines(rnd), "security classification")
+    # the element walkers called directly (they are public entry points): every truncation, the count grid, random bodies
+    direct = []
+    rich = rsn_body(suite(IEEE, 4), [suite(IEEE, 4), suite(IEEE, 2), suite(MS, 2)], [suite(IEEE, 2), suite(IEEE, 8)], caps=b"\x8c\x00")
+    richw = wpa_body(suite(MS, 2), [suite(MS, 2), suite(MS, 4)], [suite(MS, 2), suite(MS, 1)])[4:]
+    for cut in range(len(rich) + 1):
+        direct.append("ie rsn " + (rich[:cut].hex() or "-"))
+    for cut in range(len(richw) + 1):
+        direct.append("ie wpa " + (richw[:cut].hex() or "-"))
+    for c in (0, 1, 6, 7, 0x40, 0xff, 0x100, 0x3fff, 0x4000, 0x4001, 0x8000, 0xffff):
+        for present in (0, 1, 6, 8):
+            for which in ("p", "a"):
+                b = rsn_body(suite(IEEE, 4), [suite(IEEE, 4)] * (present if which == "p" else 1), [suite(IEEE, 2)] * (present if which == "a" else 1),
+                             pcount=c if which == "p" else None, acount=c if which == "a" else None)
+                direct.append("ie rsn " + b.hex())
+                w = wpa_body(suite(MS, 2), [suite(MS, 2)] * (present if which == "p" else 1), [suite(MS, 2)] * (present if which == "a" else 1),
+                             pcount=c if which == "p" else None, acount=c if which == "a" else None)[4:]
+                direct.append("ie wpa " + w.hex())
+    for _ in range(1500 if ctx.tier == "quick" else 30000):
+        L = rnd.choice([0, 1, 5, 6, 7, 8, 9, 10, 12, 14, 16, 20, 30, 60, 255, 300])
+        b = bytearray(rnd.getrandbits(8) for _ in range(L))
+        for off in (6, 12):
+            if L > off + 1 and rnd.random() < 0.7:
+                b[off:off + 2] = rnd.choice([0, 1, 2, 6, 7]).to_bytes(2, "little")
+        direct.append("ie %s %s" % (rnd.choice(["rsn", "wpa"]), bytes(b).hex() or "-"))
+    fw.run_suite(ctx, exe, "S-sec/direct", direct, "RSN / WPA element decode")
     fw.conclude(ctx, broken)
 
 
